@@ -12,7 +12,12 @@ dyadic origins, small integers) are compared exactly as rationals; geographic va
 spec checks (round trip, centres in bounds, symmetry). Geographic grids that end at a pole with non-dyadic row
 heights (180/N degree: 0.1, 0.05, 0.9, 1/60 ...; global and polar caps, many rows, few columns) cannot be handed
 to the Lean driver exactly: their areas are judged ('spec') against an own oracle - row edges as exact rationals of
-the float transform, sines in 160-bit fixed point - with an absolute tolerance on the sine difference."""
+the float transform, sines in 160-bit fixed point - with an absolute tolerance on the sine difference.
+Resolutions that are NEARLY a unit fraction (header-truncated decimals of 1/n such as 0.0083333, 0.00027778,
+(1/n)*(1 +- 2^-k); relative distance 1e-6 .. 1e-4 from 1/n, never equal) on rasters with one long axis (up to
+4000 columns or rows): the object must keep the transform it was given (constructor and set_transform, Affine
+or 6-tuple) and centres / bounds / containing cells / projected areas are judged ('spec') against
+origin + (k + 1/2) * res evaluated as exact rationals of the PASSED binary64 coefficients, a few ulp tolerance."""
 import math
 import warnings
 from fractions import Fraction as Fr
@@ -28,13 +33,17 @@ warnings.filterwarnings("ignore", category=DeprecationWarning)
 OPS = ["idxs_to_coords/FlwdirRaster.xy", "coords_to_idxs/FlwdirRaster.index", "rowcol(op,precision)",
        "index/coords_to_idxs/rowcol of one point as float / NumPy scalar / 0-d array",
        "array_bounds/bounds/extent", "affine_to_coords", "transform_from_origin/bounds",
-       "distance", "stream_distance(unit=m) first steps", "area_grid/FlwdirRaster.area"]
+       "distance", "stream_distance(unit=m) first steps", "area_grid/FlwdirRaster.area",
+       "FlwdirRaster(transform=)/set_transform: transform kept, xy/index/bounds/area of the passed coefficients"]
 RULE = ("axis-aligned transforms with resolutions of either sign: +-2^k (exact class, points also exactly on cell "
         "edges and raster corners), Pythagorean cell sizes (3,4),(0.75,1),(5,12).., equal sizes, rotated/sheared and "
         "degenerate integer transforms, geographic dyadic-degree grids in both hemispheres / across the equator / global, "
         "global grids and polar caps with non-dyadic row heights 180/N (N = 7..4000 log-uniform, 0.9/0.3/0.2/0.1/0.05/"
         "1/12/1/60/1/120 degree; up to 21600 rows x 1..8 columns, north-up and south-up, pole at the origin or at the far "
-        "edge), non-dyadic 'realistic' resolutions; shapes incl. 1xN, Nx1; all 8 neighbours + far pairs; units m2/ha/km2/cell/"
+        "edge), non-dyadic 'realistic' resolutions, resolutions within a relative 1e-6..1e-4 of a unit fraction 1/n without "
+        "being equal to it (decimals of 1/n cut or rounded to 4..9 significant digits, (1/n)(1 +- 2^-k), n = 2..20000 and the "
+        "usual 1/24, 1/60, 1/120, 1/1200, 1/3600; one long axis of 30..4000 cells x 1..3, through the constructor and through "
+        "set_transform, Affine and 6-tuple); shapes incl. 1xN, Nx1; all 8 neighbours + far pairs; units m2/ha/km2/cell/"
         "unknown; single points as Python float/int, np.float64, 0-d array, mixed and 1-element array: inside, on edges, "
         "within one cell outside the origin-side / far edges (also 1 ulp), up to 3 cells outside, NaN/inf. non-trivial = >= 2 cells and |xres| != |yres|; distinct = SHA-1 of (op, transform, shape, inputs)")
 
@@ -1034,6 +1043,165 @@ def case_area_polar(ctx, rng):
     ctx.add(desc, [], lambda ans: fs, nontrivial=True)
 
 
+# ---------------------------------------------------------------------------------------------------
+# resolutions that are nearly (never exactly) a unit fraction, one long raster axis: own exact oracle on the
+# coefficients that were PASSED (no Lean op: the coefficients are not dyadic-friendly, and the clause
+# 'the object keeps the transform it was given' is about the object, not about gis_utils)
+# ---------------------------------------------------------------------------------------------------
+NEAR_N = [24, 60, 120, 120, 240, 360, 1200, 3600, 3600, 3, 6, 7, 12, 15, 30, 90, 112, 400, 900, 1800, 7200, 10800]
+
+
+def gen_near_unit(rng):
+    """|res| < 1 within a relative 1e-6 .. 1e-4 of 1/n, res != 1/n: returns (res, description)"""
+    for _ in range(1000):
+        n = rng.choice(NEAR_N) if rng.random() < 0.6 else int(round(math.exp(rng.uniform(math.log(2), math.log(20000)))))
+        unit = 1 / n
+        u = rng.random()
+        if u < 0.55:     # a cell size as written in a raster header: few significant digits, rounded or cut
+            d = rng.randint(4, 9)
+            if rng.random() < 0.5:
+                res, how = float(f"{unit:.{d}g}"), f"1/{n} rounded to {d} significant digits"
+            else:
+                mag = 10 ** (d - 1 - math.floor(math.log10(unit)))
+                res, how = float(Fr(math.floor(Fr(unit) * mag), mag)), f"1/{n} cut to {d} significant digits"
+        elif u < 0.9:
+            k = rng.randint(14, 19)
+            sgn = rng.choice([-1, 1])
+            res, how = unit * (1 + sgn * 2.0 ** -k), f"(1/{n})*(1{'+' if sgn > 0 else '-'}2^-{k})"
+        else:            # bounds-style: a span that is a little off, divided by the number of cells
+            m = rng.randint(100, 4000)
+            span = round(m / n * (1 + rng.choice([-1, 1]) * math.exp(rng.uniform(math.log(1e-6), math.log(1e-4)))), 9)
+            res, how = span / m, f"{span!r}/{m} (about 1/{n})"
+        dev = abs(Fr(res) * n - 1)
+        if res != unit and 0 < res < 1 and Fr(1, 10 ** 6) <= dev <= Fr(1, 10 ** 4) and res != 1 / round(1 / res):
+            return res, how
+    raise AssertionError("gen_near_unit: no candidate")
+
+
+def case_near_unit(ctx, rng):
+    from pyflwdir import gis_utils as gis
+    # --- transform: at least one resolution nearly a unit fraction
+    sx, sy = gen_signs(rng)
+    rx, hx = gen_near_unit(rng)
+    ry, hy = gen_near_unit(rng)
+    u = rng.random()
+    if u < 0.25:
+        ry, hy = rng.choice([1 / 120, 0.05, 0.25, 1.0, 30.0, 1 / 3, rx]), "ordinary"
+    elif u < 0.45:
+        rx, hx = rng.choice([1 / 120, 0.1, 0.5, 1.0, 92.7, 1 / 3, ry]), "ordinary"
+    org = lambda lim: float(rng.choice([rng.randint(-lim, lim), round(rng.uniform(-lim, lim), rng.randint(1, 6)),  # noqa: E731
+                                        Fr(rng.randint(-lim * 8, lim * 8), 8)]))
+    T = Affine(sx * rx, 0.0, org(180), 0.0, sy * ry, org(80))
+    # --- shape: one long axis
+    long_ = int(round(math.exp(rng.uniform(math.log(30), math.log(4000)))))
+    short = rng.choice([1, 1, 2, 3])
+    nrow, ncol = (short, long_) if hx != "ordinary" and (hy == "ordinary" or rng.random() < 0.75) else (long_, short)
+    shape, n = (nrow, ncol), nrow * ncol
+    a, c, e, f = fr(T[0]), fr(T[2]), fr(T[4]), fr(T[5])
+    latlon = abs(f) + nrow * abs(e) <= 90 and rng.random() < 0.25
+    # --- the object, georeferenced through the constructor or through set_transform
+    route = rng.choice(["ctor", "ctor", "ctor:tuple", "set_transform", "set_transform", "set_transform:tuple"])
+    given = tuple(T)[:6] if route.endswith("tuple") else T
+    if route.startswith("ctor"):
+        flw = mk_raster(list(range(n)), shape, transform=given, latlon=latlon)
+    else:
+        T0 = rng.choice([None, Affine(1 / 120, 0.0, T[2], 0.0, -1 / 120, T[5]), Affine(T[4], 0.0, 1.0, 0.0, T[0], 2.0)])
+        flw = mk_raster(list(range(n)), shape, **({} if T0 is None else {"transform": T0}))
+        if rng.random() < 0.5:   # (answers of the old georeference may not survive)
+            call(lambda: flw.area)
+            call(lambda: flw.xy(np.arange(min(n, 4))))
+        flw.set_transform(given, latlon)
+    ctx.count("near-unit:" + route)
+    ctx.count("near-unit:long-" + ("columns" if ncol >= nrow else "rows"))
+    ctx.count("near-unit:cells>=1000" if n >= 1000 else "near-unit:cells<1000")
+    desc = {"op": "FlwdirRaster transform / xy / index / bounds / area, resolution nearly a unit fraction",
+            "route": route, "transform": tdesc(T), "xres": hx, "yres": hy, "shape": list(shape), "latlon": bool(latlon)}
+    fs = []
+    tolx = 4 * Fr(2) ** -52 * (abs(c) + ncol * abs(a))
+    toly = 4 * Fr(2) ** -52 * (abs(f) + nrow * abs(e))
+    # (1) the transform of the object is the transform that was passed
+    kept = [float(v) for v in tuple(flw.transform)[:6]]
+    if kept != tdesc(T) or bool(flw.latlon) != bool(latlon):
+        fs.append({"kind": "spec", "what": "the raster does not use the transform it was given: flw.transform = "
+                   f"{kept!r}, latlon {flw.latlon!r}", "impl": kept, "spec": tdesc(T)})
+    # (2) cell centres: origin + (k + 1/2) * res of the passed coefficients
+    cells = {0, ncol - 1, n - ncol, n - 1, (nrow // 2) * ncol + ncol // 2}
+    cells |= {rng.randrange(n) for _ in range(6)} | {rng.randrange(nrow) * ncol + ncol - 1 - rng.randrange(min(ncol, 3))
+                                                    for _ in range(2)}
+    cells = sorted(cells)
+    desc["idxs"] = cells
+    err, val = call(flw.xy, np.array(cells))
+    if err is not None:
+        fs.append({"kind": "spec", "what": f"xy of cells inside the raster raises {err}"})
+    else:
+        xs, ys = [float(v) for v in np.asarray(val[0]).ravel()], [float(v) for v in np.asarray(val[1]).ravel()]
+        for i, x, y in zip(cells, xs, ys):
+            r, cc = divmod(i, ncol)
+            wx, wy = c + (cc + Fr(1, 2)) * a, f + (r + Fr(1, 2)) * e
+            if not (math.isfinite(x) and math.isfinite(y)) or abs(fr(x) - wx) > tolx or abs(fr(y) - wy) > toly:
+                fs.append({"kind": "spec", "what": f"xy({i}) = ({x!r}, {y!r}) is not the centre of cell (row {r}, col {cc}) "
+                           f"of the given transform: ({float(wx)!r}, {float(wy)!r}); off by "
+                           f"{float((fr(x) - wx) / a) if math.isfinite(x) else x:.3g} / "
+                           f"{float((fr(y) - wy) / e) if math.isfinite(y) else y:.3g} cells"})
+                break
+    # (3) bounds / extent: origin and far corner (west, south, east, north for north-up)
+    wb = [c, f + nrow * e, c + ncol * a, f]
+    b = [float(v) for v in flw.bounds]
+    ex = [float(v) for v in flw.extent]
+    if any(not math.isfinite(v) or abs(fr(v) - w) > t for v, w, t in zip(b, wb, (tolx, toly, tolx, toly))):
+        fs.append({"kind": "spec", "what": "bounds are not (xoff, yoff + nrow*yres, xoff + ncol*xres, yoff) of the given "
+                   "transform", "impl": b, "spec": [float(w) for w in wb]})
+    if ex != [b[0], b[2], b[1], b[3]]:
+        fs.append({"kind": "spec", "what": "extent is not [xmin, xmax, ymin, ymax] of bounds", "impl": ex})
+    if T[0] > 0 and T[4] < 0:
+        ctx.count("near-unit:north-up")
+        xa, ya = flw.xy(np.arange(n))
+        if not bool(np.all((xa > b[0]) & (xa < b[2]) & (ya > b[1]) & (ya < b[3]))) \
+                or not bool(np.all((xa > float(wb[0])) & (xa < float(wb[2])) & (ya > float(wb[1])) & (ya < float(wb[3])))):
+            fs.append({"kind": "spec", "what": "a cell centre is not strictly inside the bounds", "impl": b})
+    # (4) containing cell of points 1 % inside a cell / in its middle, near the far end of the long axis and elsewhere;
+    # expected cell by exact rational arithmetic on the float point that is handed over
+    fracs = [Fr(1, 100), Fr(1, 2), Fr(99, 100)]
+    pix = [(rng.randrange(nrow), ncol - 1, rng.choice(fracs), Fr(1, 100)), (nrow - 1, rng.randrange(ncol), Fr(1, 100), rng.choice(fracs)),
+           (rng.randrange(nrow), ncol - 1, rng.choice(fracs), Fr(99, 100)), (nrow - 1, rng.randrange(ncol), Fr(99, 100), rng.choice(fracs)),
+           (0, 0, rng.choice(fracs), rng.choice(fracs))]
+    pix += [(rng.randrange(nrow), rng.randrange(ncol), rng.choice(fracs), rng.choice(fracs)) for _ in range(3)]
+    pix += [(rng.randrange(nrow), ncol, rng.choice(fracs), Fr(1, 100)), (nrow, rng.randrange(ncol), Fr(1, 100), rng.choice(fracs)),
+            (rng.randrange(nrow), -1, rng.choice(fracs), Fr(99, 100)), (-1, rng.randrange(ncol), Fr(99, 100), rng.choice(fracs))]
+    pts = []
+    for r, cc, fy, fx in pix:
+        x, y = float(c + (cc + fx) * a), float(f + (r + fy) * e)
+        r1, c1 = math.floor((fr(y) - f) / e), math.floor((fr(x) - c) / a)
+        pts.append((x, y, r1 * ncol + c1 if 0 <= r1 < nrow and 0 <= c1 < ncol else None))
+    desc["points"] = [[p[0], p[1]] for p in pts]
+    inside = [p for p in pts if p[2] is not None]
+    err, val = call(flw.index, np.array([p[0] for p in inside]), np.array([p[1] for p in inside]))
+    if err is not None or ints(val) != [p[2] for p in inside]:
+        fs.append({"kind": "spec", "what": "returned index is not the cell of the given transform that contains the point",
+                   "impl": err or ints(val), "spec": [p[2] for p in inside]})
+    for x, y, want in pts:
+        if want is None:
+            ctx.count("near-unit:point-outside")
+            for form, X, Y in point_forms(x, y)[:2]:
+                err, val = call(flw.index, X, Y)
+                if err != "IndexError":
+                    fs.append({"kind": "spec", "what": f"point ({x!r}, {y!r}) ({form}) is 1 % of a cell outside the raster of the "
+                               f"given transform: must raise IndexError, got {err or 'returns ' + str(ints(val))}"})
+    # (5) projected cell area |xres * yres| (float32 grid)
+    if not latlon:
+        err, val = call(lambda: flw.area)
+        want = abs(a * e)
+        if err is not None or np.asarray(val).shape != shape:
+            fs.append({"kind": "spec", "what": f"area: {err or 'wrong shape'}"})
+        else:
+            arr = np.asarray(val)
+            lo, hi = float(arr.min()), float(arr.max())
+            if not (abs(fr(lo) - want) <= want * Fr(2) ** -22 and abs(fr(hi) - want) <= want * Fr(2) ** -22):
+                fs.append({"kind": "spec", "what": f"cell areas {lo!r} .. {hi!r} differ from |xres*yres| = {float(want)!r} of the "
+                           f"given transform (relative {float(abs(fr(hi) - want) / want):.2g})"})
+    ctx.add(desc, [], lambda ans: fs, nontrivial=abs(T[0]) != abs(T[4]))
+
+
 def case_real(ctx, rng, T, shape):
     """non-dyadic transform: implementation-level spec checks only (no exact model comparison possible)"""
     from pyflwdir import gis_utils as gis
@@ -1172,6 +1340,8 @@ def run(ctx):
         if shape[0] == 1 or shape[1] == 1:
             ctx.count("shape:1xN/Nx1")
         nontriv = shape[0] * shape[1] >= 2 and abs(T[0]) != abs(T[4])
+        if k % 3 == 1:
+            case_near_unit(ctx, rng)
         if cls == "real":
             case_real(ctx, rng, T, shape)
             case_xy(ctx, rng, T, cls, shape, nontriv)
